@@ -342,7 +342,7 @@ func c13RunAsk(line string) string {
 		if atomic.LoadInt32(&c13Deviations) >= 3 {
 			return 300 * time.Millisecond
 		}
-		return 1500 * time.Millisecond
+		return 2500 * time.Millisecond
 	}
 	await := func(hint string, confirmBlocked bool) string {
 		if hint == "" {
